@@ -1123,3 +1123,41 @@ Proof.
       rewrite <- (app_nil_r (u32s _)). rewrite read_count_u32s_u32s by assumption. cbn [obind fst].
       rewrite N.sub_diag. cbn [N.to_nat repeat]. rewrite app_nil_r. reflexivity.
 Qed.
+
+(* ================= C13: Hll8 array images, every flag variant ================= *)
+(* an HLL-mode preamble with ANY flags byte and ANY lg_arr byte (the reader ignores COMPACT, EMPTY and
+   lg_arr for array images -- repaired defect D4) *)
+Lemma hll_deserialize_any_hll8_header : forall lgk lg_arr flags cm rest, 4 <= lgk <= 21 ->
+  hll_deserialize ([HLL_PREINTS; SER_VER; FAMILY_HLL; lgk; lg_arr; flags; cm; mode_byte MODE_HLL T8] ++ rest) =
+  obind (a8_deserialize rest lgk (negb (N.land flags OOO_FLAG =? 0))) (fun a => Ok (mkSketch lgk (MArr8 a))).
+Proof.
+  intros lgk lg_arr flags cm rest Hlg.
+  destruct (mode_byte_fields MODE_HLL T8 ltac:(vm_compute; reflexivity)) as (Hm1 & Hm2 & Hm3).
+  unfold hll_deserialize. cbn [app length nth skipn Nat.ltb Nat.leb].
+  rewrite !N.eqb_refl. cbn [negb]. replace ((lgk <? 4) || (21 <? lgk)) with false by lia.
+  rewrite Hm2, Hm1. replace (tgt_num T8 =? 3) with false by reflexivity. rewrite tgt_of_num.
+  change (MODE_HLL =? MODE_LIST) with false. change (MODE_HLL =? MODE_SET) with false. cbv iota. reflexivity.
+Qed.
+
+Theorem hll8_variants_read_back : forall lgk lg_arr flags cm hipb q0b q1b num auxc regs tail,
+  4 <= lgk <= 21 -> length hipb = 8%nat -> length q0b = 8%nat -> length q1b = 8%nat ->
+  length regs = N.to_nat (2 ^ lgk) -> (forall v, In v regs -> v <= 63) ->
+  exists a, hll_deserialize ([HLL_PREINTS; SER_VER; FAMILY_HLL; lgk; lg_arr; flags; cm; mode_byte MODE_HLL T8]
+                             ++ hipb ++ q0b ++ q1b ++ le_bytes 4 num ++ le_bytes 4 auxc ++ regs ++ tail)
+            = Ok (mkSketch lgk (MArr8 a)) /\
+    a8_lgk a = lgk /\ (forall j, a8_get a j = if j <? 2 ^ lgk then nth (N.to_nat j) regs 0 else 0) /\
+    a8_nz a = N.of_nat (length (filter (fun v => v =? 0) regs)) /\
+    a8_est a = est_of_image hipb q0b q1b (negb (N.land flags OOO_FLAG =? 0)).
+Proof.
+  intros lgk lg_arr flags cm hipb q0b q1b num auxc regs tail Hlg H1 H2 H3 Hlen H63.
+  rewrite hll_deserialize_any_hll8_header by assumption. unfold a8_deserialize, read_hll_body.
+  rewrite (take_app_n 8 _ _ H1). cbn [obind fst snd]. rewrite (take_app_n 8 _ _ H2). cbn [obind fst snd].
+  rewrite (take_app_n 8 _ _ H3). cbn [obind fst snd]. rewrite (take_app_n 4 _ _ (le_bytes_length 4 _)). cbn [obind fst snd].
+  rewrite (take_app_n 4 _ _ (le_bytes_length 4 _)). cbn [obind fst snd]. rewrite (take_app_n _ _ _ Hlen). cbn [obind fst snd].
+  assert (Hex : existsb (fun v => MAX_VALUE <? v) regs = false).
+  { destruct (existsb _ regs) eqn:E; [|reflexivity]. apply existsb_exists in E. destruct E as (v & Hv & Hgt).
+    specialize (H63 v Hv). unfold MAX_VALUE in Hgt. lia. }
+  rewrite Hex. eexists. split; [reflexivity|]. unfold a8_get. cbn [a8_lgk a8_bytes a8_nz a8_est].
+  split; [reflexivity|]. split; [|split; reflexivity].
+  intros j. rewrite arr_of_list_get, Hlen, N2Nat.id, N.add_0_l, N.sub_0_r, aget_empty. replace (0 <=? j) with true by lia. reflexivity.
+Qed.
